@@ -49,7 +49,7 @@ SPELL = {'1.0': ['1.0', '1', '1.0.0'], '2.0': ['2.0', '2', '2.0.0'],
 
 
 @st.composite
-def spec_lists(draw, max_size=6):
+def spec_lists(draw, max_size=6, spellings=True):
     n = draw(st.integers(1, max_size))
     # a small pool of versions so that boundaries coincide
     pool = draw(st.lists(st.sampled_from(LATTICE), min_size=1, max_size=3,
@@ -57,7 +57,7 @@ def spec_lists(draw, max_size=6):
     out = []
     for _ in range(n):
         v = draw(st.sampled_from(pool))
-        if v in SPELL and draw(st.integers(0, 4)) == 0:
+        if spellings and v in SPELL and draw(st.integers(0, 4)) == 0:
             v = draw(st.sampled_from(SPELL[v]))
         out.append([draw(st.sampled_from(OPS)), v])
     return out
@@ -223,9 +223,12 @@ def pc_cases(draw):
                               max_size=3, unique=True)):
         deps[name] = {
             'version': draw(st.sampled_from(LATTICE)),
-            'public': draw(st.one_of(st.just(None), spec_lists(max_size=2))),
-            'private': draw(st.one_of(st.just(None),
-                                      spec_lists(max_size=2))),
+            # (one spelling per version: pkg-config, unlike the specifier
+            # algebra, takes 1 and 1.0 for different versions)
+            'public': draw(st.one_of(st.just(None), spec_lists(
+                max_size=2, spellings=False))),
+            'private': draw(st.one_of(st.just(None), spec_lists(
+                max_size=2, spellings=False))),
         }
         if deps[name]['public'] is None and deps[name]['private'] is None:
             deps[name]['public'] = []
